@@ -130,8 +130,8 @@ func checkC17(sc *Scenario, acc *Acc) (*c17Fail, bool, bool) {
 	if len(sc.Prior) > 0 {
 		// chained: earlier cells (other failure points, other debug mode) ran in this
 		// process before; nothing is reset in between
+		var pw *World
 		for i, prior := range sc.Prior {
-			var pw *World
 			if i == 0 {
 				pw, ok = setupWorld(prior)
 			} else {
@@ -145,6 +145,12 @@ func checkC17(sc *Scenario, acc *Acc) (*c17Fail, bool, bool) {
 			}
 		}
 		w, ok = setupWorldKeep(sc)
+		if stale, _ := sc.Extra["stale"].(bool); stale && ok && pw != nil && pw.Tpl != nil {
+			// the OLDER Template value (loaded by the last predecessor, possibly under another debug
+			// mode) is used after the newer NewTemplate; the configuration is process-global, so the
+			// current configuration is what the model applies
+			w.Tpl = pw.Tpl
+		}
 	} else {
 		w, ok = setupWorld(sc)
 	}
@@ -367,6 +373,30 @@ func (p c17) Run(seed uint64, run int, tier string, acc *Acc) *Violation {
 							first = v
 						} else {
 							acc.Viol = append(acc.Viol, v)
+						}
+					}
+				}
+				// the previous cell's Template value, used after this cell's NewTemplate
+				if len(chain) > 0 {
+					st := sc.Clone()
+					st.Prior = []*Scenario{chain[len(chain)-1]}
+					st.Ops = chain[len(chain)-1].Ops
+					st.Family = "stale-template"
+					st.Extra["stale"] = true
+					st.Extra["cell"] = "stale-template " + cell.class()
+					f, _, bad := checkC17(st, acc)
+					acc.Probe("stale-template-cells", 1)
+					if !bad && f != nil {
+						sig := "chained stale-template " + cell.class() + " clause=" + f.what
+						if !seen[sig] {
+							seen[sig] = true
+							v := &Violation{Prop: "C17", Clause: f.clause + " (an older Template value used after a newer NewTemplate)", Sig: sig, Scenario: st, Expected: f.exp, Got: f.got,
+								Detail: fmt.Sprintf("page %q, current config %+v", page, *st.Setup[0].Cfg)}
+							if first == nil {
+								first = v
+							} else {
+								acc.Viol = append(acc.Viol, v)
+							}
 						}
 					}
 				}
